@@ -243,8 +243,9 @@ pub fn canon(o: &cli::Out) -> String {
     }).unwrap_or_else(|| {
         // a summary in a wording this harness does not know (a line that mentions skipping and carries numbers): reported as such, so that
         // the comparison can say "not checkable" instead of "wrong"
-        match o.stderr.lines().find(|l| l.to_ascii_lowercase().contains("skip") && l.chars().any(|c| c.is_ascii_digit()) && !l.contains("Skipping sample")) {
-            Some(l) => format!("?{}", l.chars().filter(|c| c.is_ascii_digit() || *c == '/' || *c == ' ').collect::<String>().split_whitespace().collect::<Vec<_>>().join(",")),
+        // (the LAST such line that is not a per-site / per-sample message: the summary comes at the end of the run)
+        match o.stderr.lines().filter(|l| l.to_ascii_lowercase().contains("skip") && l.chars().any(|c| c.is_ascii_digit()) && !l.contains("Skipping s")).last() {
+            Some(l) => { let l = l.split(']').last().unwrap_or(l); format!("?{}", l.chars().map(|c| if c.is_ascii_digit() || c == '/' { c } else { ' ' }).collect::<String>().split_whitespace().collect::<Vec<_>>().join(",")) }
             None => "-".into(),
         }
     });
